@@ -13,7 +13,7 @@ META = {
                    'indexing semantics, np.NaN looked up for real): window size k, stream of n <= 2k+3 distinct symbolic values; '
                    'after every prefix z3 proves mean*c = sum of the last c values, var = (1/c) sum (v-mean)^2, std >= 0 and '
                    'std^2 = var with c = min(n, k). The oracle is black-box (last-c semantics), so any correct ring-buffer layout passes.',
-    'bounds': {'quick': {'k': '1..4', 'n': '<= 2k+3'}, 'thorough': {'k': '1..7', 'n': '<= 3k+3'}},
+    'bounds': {'quick': {'k': '1..4', 'n': '<= 2k+3'}, 'thorough': {'k': '1..12', 'n': '<= 3k+3'}},
     'outside': ['windows larger than the bound', 'floating-point rounding of nanmean/nanvar', 'NaN as an input value'],
     'assumptions': ['np.nanmean / nanvar / nanstd = mean / population variance / its root over the non-NaN buffer entries',
                     'float(x) on a NumPy scalar is the identity on its value'],
@@ -21,7 +21,7 @@ META = {
 
 
 def configs(tier):
-    kmax = 4 if tier == 'quick' else 7
+    kmax = 4 if tier == 'quick' else 12
     cfgs = []
     for k in range(1, kmax + 1):
         n = 2 * k + 3 if tier == 'quick' else 3 * k + 3
